@@ -3,7 +3,9 @@ from __future__ import annotations
 
 import json
 import math
+import os
 import sys
+import time
 from datetime import datetime, timedelta
 from fractions import Fraction
 from pathlib import Path
@@ -86,6 +88,8 @@ def cases(run: Run):
             out.append({"op": "rsw", "int": True, "t": int_state(rng), "c": int_state(rng)})
         out.append({"op": "lla", "lat": rng.choice([0.0, 90.0, -90.0, 45.0, rng.uniform(-90, 90)]), "lon": rng.choice([0.0, 180.0, -180.0, rng.uniform(-180, 180)]), "alt": rng.choice([0.0, 0.5, 800.0, 36000.0, -0.1])})
         out.append({"op": "razel", "date": rand_date(rng).isoformat(), "obs": rand_state(rng, 6378.2, 6400.0), "tgt": rand_state(rng)})
+        if rng.random() < 0.5:
+            out[-1]["nb"] = [rng.uniform(-40, 40) for _ in range(3)]
     for _ in range(run.n(200, 3000)):
         y = rng.choice([1900, 2000, 2016, 2020, 2021, 2023, 2024, 2100, rng.randint(1901, 2099)])
         m = rng.randint(1, 12)
@@ -98,6 +102,19 @@ def cases(run: Run):
     for yb in range(2015, 2023):
         for off in ([-0.9, -0.6, -0.3, -0.1, 0.0, 0.1, 0.3, 0.6, 0.9] if run.quick() else [x / 10 for x in range(-20, 21)]):
             out.append({"op": "spin", "date": (datetime(yb, 1, 1) + timedelta(seconds=off)).isoformat(), "delta": rng.choice([0.05, 0.5, 1.0])})
+    out += dst_switch_cases()
+    return out
+
+
+def dst_switch_cases():
+    """the check runs in a time zone with daylight saving (see main): rotation probes around the naive clock times at which that zone switches"""
+    out = []
+    for y in range(2015, 2022):  # the Earth-orientation table ends on 2022-10-04
+        mar = next(datetime(y, 3, d) for d in range(8, 15) if datetime(y, 3, d).weekday() == 6)
+        nov = next(datetime(y, 11, d) for d in range(1, 8) if datetime(y, 11, d).weekday() == 6)
+        for base in (mar, nov):
+            for hh in (1, 2, 3):
+                out.append({"op": "spin", "date": (base + timedelta(hours=hh) - timedelta(seconds=0.5)).isoformat(), "delta": 1.0})
     return out
 
 
@@ -191,11 +208,19 @@ def impl_case(c):
     if op == "razel":
         dt = datetime.fromisoformat(c["date"])
         obs, tgt = np.array(c["obs"]), np.array(c["tgt"])
+        if c.get("nb"):
+            # another observer a few tens of metres away (a neighbouring dome) is converted just before this one
+            nb = obs.copy()
+            nb[:3] += np.array(c["nb"]) / 1000.0
+            T.eci2razel(tgt, nb, dt)
         rz = T.eci2razel(tgt, obs, dt)
+        oe, te = T.eci2ecef(obs, dt), T.eci2ecef(tgt, dt)
+        lla = T.ecef2lla(oe)
+        extra = {"obs_ecef": flat(oe)[:3], "tgt_ecef": flat(te)[:3], "lat": float(lla[0]), "lon": float(lla[1])}
         rd = T.razel2radec(*rz, observer_eci=obs, utc_date=dt)
         rz2 = T.radec2razel(*rd, observer_eci=obs, utc_date=dt)
         rd2 = T.eci2radec(tgt, obs, dt)
-        return {"razel": [float(v) for v in rz], "radec": [float(v) for v in rd], "razel2": [float(v) for v in rz2], "radec2": [float(v) for v in rd2]}
+        return {"razel": [float(v) for v in rz], "radec": [float(v) for v in rd], "razel2": [float(v) for v in rz2], "radec2": [float(v) for v in rd2], **extra}
     if op == "doy":
         return {"doy": float(TC.dayOfYear(c["y"], c["m"], c["d"], c["h"], c["mi"], c["s"]))}
     if op == "gast":
@@ -212,7 +237,7 @@ def impl_case(c):
         e1, e2 = T.eci2ecef(x, dt), T.eci2ecef(x, dt2)
         a1, a2 = math.atan2(e1[1], e1[0]), math.atan2(e2[1], e2[0])
         eo1, eo2 = getEarthOrientationParameters(dt.date()), getEarthOrientationParameters(dt2.date())
-        return {"dtheta": a1 - a2, "dut1": [float(eo1.delta_ut1), float(eo2.delta_ut1)], "eqe": [float(red(dt).eq_equinox), float(red(dt2).eq_equinox)]}
+        return {"a1": a1, "dtheta": a1 - a2, "dut1": [float(eo1.delta_ut1), float(eo2.delta_ut1)], "eqe": [float(red(dt).eq_equinox), float(red(dt2).eq_equinox)]}
     raise KeyError(op)
 
 
@@ -410,6 +435,20 @@ def oracle(run: Run, c, impl):
         d = np.array(c["tgt"][:3]) - np.array(c["obs"][:3])
         if not close(i["razel"][0], float(np.linalg.norm(d)), 1e-11):
             fails.append(("razel:range", "range is not the distance between the two positions"))
+        # range/azimuth/elevation laid off along THIS observer's own horizon axes (south, east, zenith at its geodetic latitude and
+        # longitude) from its own position lead back to the target - whatever was converted before
+        rho, el, az = i["razel"][:3]  # the code's order: range, elevation, azimuth
+        la, lo = i["lat"], i["lon"]
+        S, E, Z = -rho * math.cos(el) * math.cos(az), rho * math.cos(el) * math.sin(az), rho * math.sin(el)
+        sh = np.array([math.sin(la) * math.cos(lo), math.sin(la) * math.sin(lo), -math.cos(la)])
+        eh = np.array([-math.sin(lo), math.cos(lo), 0.0])
+        zh = np.array([math.cos(la) * math.cos(lo), math.cos(la) * math.sin(lo), math.sin(la)])
+        back = np.array(i["obs_ecef"]) + S * sh + E * eh + Z * zh
+        miss = float(np.linalg.norm(back - np.array(i["tgt_ecef"])))
+        run.worse("oracle:razel-own-axes", miss)
+        if not miss <= 1e-6 + 1e-10 * rho:
+            fails.append(("razel:own-axes", f"range/az/el laid off along the observer's own horizon axes end {miss:.6g} km from the target"
+                          + (f" (an observer {np.linalg.norm(c['nb']):.0f} m away was converted just before)" if c.get("nb") else "")))
         # the rates as well (an observer that moves in the Earth-fixed frame: aircraft, satellite)
         def rates_close(u, v):
             return all(abs(x - y) <= 1e-9 * max(1.0, abs(x), abs(y)) + 1e-13 for x, y in zip(u[3:6], v[3:6]))
@@ -437,6 +476,17 @@ def oracle(run: Run, c, impl):
         allowed = 5e-9 + 1e-7 * om * delta
         run.worse("oracle:spin", abs(dth - expect))
         run.count("spin:eop-step" if step_ut1 != 0 else "spin:same-eop")
+        # the absolute angle: the inertial x axis seen from the Earth lies at minus the sidereal angle, which the 1982 expression gives from
+        # the date alone once the general precession in right ascension since J2000 is taken off (nutation, dUT1 and polar motion together stay below 6e-4 rad)
+        d0 = datetime.fromisoformat(c["date"])
+        jd = d0.toordinal() + 1721424.5 + (d0.hour * 3600 + d0.minute * 60 + d0.second + d0.microsecond * 1e-6) / 86400.0
+        tc = (jd - 2451545.0) / 36525.0
+        gmst = math.radians(((67310.54841 + (876600.0 * 3600 + 8640184.812866) * tc + 0.093104 * tc * tc - 6.2e-6 * tc**3) % 86400.0) / 240.0)
+        off = (-i["a1"] - gmst + 2.2362e-4 * tc * 100.0 + math.pi) % (2 * math.pi) - math.pi  # general precession in right ascension since J2000
+        run.worse("oracle:spin-absolute", abs(off))
+        if not abs(off) < 6e-4:
+            fails.append(("spin:absolute", f"at {c['date']} the Earth-fixed frame is turned {off:.6g} rad from the sidereal angle of that date "
+                          f"(process time zone {os.environ.get('TZ')})"))
         if abs(dth - expect) > allowed:
             fails.append(("spin:continuity", f"Earth rotation between {c['date']} and +{delta}s advanced {dth:.9g} rad, expected {expect:.9g} (EOP dUT1 step {step_ut1:.3g}s)"))
     return fails
@@ -478,9 +528,13 @@ def search(run: Run):
 
 
 def main():
+    # the code works with naive datetimes whose fields are UTC: nothing may depend on the zone the process runs in. The whole check runs
+    # in a zone with daylight saving (a POSIX rule, no tz database needed), where a detour through local time shows
+    os.environ["TZ"] = "EST5EDT,M3.2.0,M11.1.0"
+    time.tzset()
     run = Run(
         PID,
-        ["RV.Props.C04"],
+        ["RV.Props.C04", "RV.Bridge.Conversions"],
         ["RV/Model/Frames.lean", "RV/Num/Vec3.lean"],
         "Lean 4 theorems (polynomial identities with linear_combination certificates; omega over the Gregorian calendar for all years; "
         "kernel-evaluated exact-rational table for the year-boundary continuity of the sidereal angle) + differential correspondence "
